@@ -26,8 +26,9 @@ import numpy as np
 import common
 import proofs
 from common import BUILD, COQ, VERIF
+from props import c19_session
 
-FILES = ["gen/Gen_tables_params.v", "Model_config.v", "Proofs_config.v"]
+FILES = ["gen/Gen_tables_params.v", "Model_config.v", "Proofs_config.v", "Model_config_session.v", "Proofs_config_session.v"]
 PROP = "Properties/C19.v"
 
 # findings of the current tree that this check knows how to recognise (one witness each).
@@ -280,9 +281,11 @@ class Impl:
             return ["d", sorted([[k, self.canon(x, base)] for k, x in v.items()], key=lambda kv: kv[0])]
         return ["unknown", type(v).__name__]
 
-    def run(self, path, tree):
-        """-> canonical result of parse_config(path); `tree` = tomllib view of the same file"""
-        self.rec = []
+    def run(self, path, tree, reset=True):
+        """-> canonical result of parse_config(path); `tree` = tomllib view of the same file
+        (reset=False: keep the record of loaded objects, for call histories whose earlier results stay alive)"""
+        if reset:
+            self.rec = []
         base = pathlib.Path(path).resolve().parent
         names = set()
         for tab, key in (("parameters", "phase_assemblage"), ("output", "raw_output"), ("output", "diagnostics")):
@@ -1017,6 +1020,15 @@ def run(chk):
         if "Model_config.v" in br.built_vo:
             bad += correspondence(chk, impl, wd, cases, V)
             chk.cov["traces_validated_against_impl"] = len(cases)
+        # call histories on live objects (Model_config_session): results edited between the calls
+        sbad, sessions = [], []
+        if "Model_config_session.v" in br.built_vo and not any(V.values()):
+            import time as _t
+            t1 = _t.time()
+            sbad, sessions = c19_session.correspondence(chk, impl, wd)
+            chk.cov["seconds_call_histories"] = round(_t.time() - t1, 1)
+            for h, msg in sbad:
+                bad.append(({"kind": "call-history:" + h.get("name", "?"), "toml": "", "expect": "session", "omitted": [], "detail": ""}, msg))
         chk.cov["disagreements"] = len(bad)
         regress = []
         for flag in FLAGS:
@@ -1029,6 +1041,8 @@ def run(chk):
         if ok and not bad and not regress:
             return
         found = search(chk, impl, wd, cases, V, status)
+        if sessions and len(found) < 3:
+            found += c19_session.search(chk, impl, wd, sbad, sessions)[:3 - len(found)]
         for flag in regress:
             found.append({"kind": "property-violation", "call": "pydrex.io.parse_config",
                           "input": {"finding": FINDING[flag][0]}, "observed": [FINDING[flag][1] + " (recorded as fixed, reproduces again)"]})
@@ -1051,6 +1065,8 @@ def replay(d):
         print("replay file names a broken obligation; re-run the check itself")
         return 1
     inp = d["input"]
+    if "history" in inp:
+        return c19_session.replay(d)
     if "class" in inp:
         fails = [f for f in oracle_presets() if f[0] == inp["class"] and (inp.get("field") is None or f[1] == inp["field"])]
         for f in fails:
